@@ -10,7 +10,7 @@ from sx.fsmodel import FS
 
 PROPERTY = "C16"
 BOUNDS = {
-    "quick": "real asyncio loop in virtual time; exit moment k sym [0,12] loop turns after entry (every file operation of the model is a suspension point, so k lands before the saver first runs, inside each operation of a save, and in its sleep); body ends normally or raises; fault bits: connect fails (with a transport error, or - stub transport - interrupted by CancelledError), disconnect fails; transport kinds: stub, TCPTransport and SerialTransport on fake reader/writer, MQTTClient on a fake broker client; virtual durations D in {0,1,899,900,901,1800,2700} s in a first or a second session of the same gateway object; stub transport whose connect/disconnect suspend or not; persistence file present (2 nodes) or missing",
+    "quick": "real asyncio loop in virtual time; exit moment k sym [0,12] loop turns after entry (every file operation of the model is a suspension point, so k lands before the saver first runs, inside each operation of a save, and in its sleep); body ends normally or raises; fault bits: connect fails (with a transport error, or - stub transport - interrupted by CancelledError), disconnect fails; transport kinds: stub, TCPTransport and SerialTransport on fake reader/writer, MQTTClient on a fake broker client; virtual durations D in {0,1,899,900,901,1800,2700} s in a first or a second session of the same gateway object; stub transport whose connect/disconnect suspend or not; persistence file present (2 nodes) or missing; one partition with file handles of symbolic speed (each handle 1 or 5 suspensions per operation)",
     "thorough": "k sym [0,20], D additionally {3599,3600,9000}",
 }
 REALISED = ["k and D are forked into concrete values (each is one path)"]
@@ -124,6 +124,8 @@ def partitions(tier):
         for missing in ((0, 1) if kind == "stub" else (0,)):
             parts.append({"name": "exit-%s%s" % (kind, "-nofile" if missing else ""), "fn": "sym_exit", "kind": kind, "missing": missing, "suspend": True,
                           "kmax": 12 if q else 20, "budget": 600 if q else 2400, "cost": 6})
+    parts.append({"name": "exit-stub-latency", "fn": "sym_exit", "kind": "stub", "missing": 0, "suspend": True, "latency": True, "nofaults": True,
+                  "kmax": 12 if q else 20, "budget": 600 if q else 2400, "cost": 8})
     parts.append({"name": "exit-stub-nosuspend", "fn": "sym_exit", "kind": "stub", "missing": 0, "suspend": False,
                   "kmax": 12 if q else 20, "budget": 600 if q else 2400, "cost": 6})
     parts.append({"name": "cadence", "fn": "sym_cadence", "durations": [0, 1, 899, 900, 901, 1800, 2700] + ([] if q else [3599, 3600, 9000]),
@@ -164,15 +166,28 @@ def sym_exit(inp, part):
 
     kind = part["kind"]
     k = inp.pick("exit_after_turns", part["kmax"] + 1)
-    connect_fault = inp.bool("connect_fault")
-    disconnect_fault = inp.bool("disconnect_fault")
-    body_raises = inp.bool("body_raises")
+    if part.get("nofaults"):
+        connect_fault = disconnect_fault = body_raises = False
+    else:
+        connect_fault = inp.bool("connect_fault")
+        disconnect_fault = inp.bool("disconnect_fault")
+        body_raises = inp.bool("body_raises")
     connect_fault = bool(connect_fault)
     if connect_fault and kind == "stub" and inp.bool("connect_cancelled"):
         connect_fault = "cancel"
     disconnect_fault = bool(disconnect_fault)
     body_raises = bool(body_raises)
-    fs = FS(_initial_files(part["missing"]), yielder=_yield)
+    latency = None
+    if part.get("latency"):
+        # thread-pool file I/O of varying speed: every file handle (load, each save) is slow or fast
+        lat = {}
+
+        def latency(h):
+            if h not in lat:
+                lat[h] = 5 if inp.bool("slow_handle%d" % h) else 1
+            return lat[h]
+
+    fs = FS(_initial_files(part["missing"]), yielder=_yield, latency=latency)
     wire(fs, False)
     suspend = part.get("suspend", True)
     tr, restore = make_transport(kind, connect_fault, disconnect_fault, suspend)
